@@ -1673,7 +1673,13 @@ func (is IndexSet) measurementNamesByTagFilter(auth query.FineAuthorizer, op inf
 			break
 		}
 		// If the measurement doesn't have the tag key, then it won't be considered.
+		// The tag key must belong to at least one series that still exists: an index
+		// may keep the keys and values of dropped series around.
 		if ok, err := is.hasTagKey(me, []byte(key)); err != nil {
+			return nil, err
+		} else if !ok {
+			continue
+		} else if ok, err := is.tagKeyHasSeries(me, []byte(key)); err != nil {
 			return nil, err
 		} else if !ok {
 			continue
@@ -1700,13 +1706,9 @@ func (is IndexSet) measurementNamesByTagFilter(auth query.FineAuthorizer, op inf
 					continue
 				}
 
-				tagMatch = true
-				if query.AuthorizerIsOpen(auth) {
-					break
-				}
-
-				// When an authorizer is present, the measurement should be
-				// included only if one of it's series is authorized.
+				// The value only counts if one of its series still exists. When an
+				// authorizer is present, the measurement should be included only if
+				// one of those series is authorized.
 				sitr, err := is.tagValueSeriesIDIterator(me, []byte(key), ve)
 				if err != nil {
 					return nil, err
@@ -1724,6 +1726,11 @@ func (is IndexSet) measurementNamesByTagFilter(auth query.FineAuthorizer, op inf
 					}
 
 					if se.SeriesID == 0 {
+						break
+					}
+					tagMatch = true
+
+					if query.AuthorizerIsOpen(auth) {
 						break
 					}
 
@@ -2035,6 +2042,25 @@ func (is IndexSet) hasTagKey(name, key []byte) (bool, error) {
 	return false, nil
 }
 
+// tagKeyHasSeries returns true if at least one series that has not been deleted
+// carries the tag key. It never takes a lock on the series file.
+func (is IndexSet) tagKeyHasSeries(name, key []byte) (bool, error) {
+	itr, err := is.tagKeySeriesIDIterator(name, key)
+	if err != nil {
+		return false, err
+	} else if itr == nil {
+		return false, nil
+	}
+	defer itr.Close()
+	itr = FilterUndeletedSeriesIDIterator(is.SeriesFile, itr)
+
+	e, err := itr.Next()
+	if err != nil {
+		return false, err
+	}
+	return e.SeriesID != 0, nil
+}
+
 // HasTagValue returns true if the tag value exists in any index for the provided
 // measurement and tag key.
 func (is IndexSet) HasTagValue(name, key, value []byte) (bool, error) {
@@ -2114,10 +2140,8 @@ func (is IndexSet) tagValueIterator(name, key []byte) (TagValueIterator, error) 
 // TagKeyHasAuthorizedSeries determines if there exists an authorized series for
 // the provided measurement name and tag key.
 func (is IndexSet) TagKeyHasAuthorizedSeries(auth query.FineAuthorizer, name, tagKey []byte) (bool, error) {
-	if !is.HasInmemIndex() && query.AuthorizerIsOpen(auth) {
-		return true, nil
-	}
-
+	// Even without an authorizer the series have to be consulted: an index may keep
+	// the tag keys of dropped series around.
 	release := is.SeriesFile.Retain()
 	defer release()
 
@@ -2899,22 +2923,9 @@ func (is IndexSet) MeasurementTagKeyValuesByExpr(auth query.FineAuthorizer, name
 			}
 			defer vitr.Close()
 
-			// If no authorizer present then return all values.
-			if query.AuthorizerIsOpen(auth) {
-				for {
-					val, err := vitr.Next()
-					if err != nil {
-						return nil, err
-					} else if val == nil {
-						break
-					}
-					results[ki] = append(results[ki], string(val))
-				}
-				continue
-			}
-
-			// Authorization is present — check all series with matching tag values
-			// and measurements for the presence of an authorized series.
+			// Check all series with matching tag values and measurements for the
+			// presence of an existing (and, if authorization is present, authorized)
+			// series: an index may keep the values of dropped series around.
 			for {
 				val, err := vitr.Next()
 				if err != nil {
@@ -2939,6 +2950,11 @@ func (is IndexSet) MeasurementTagKeyValuesByExpr(auth query.FineAuthorizer, name
 					}
 
 					if se.SeriesID == 0 {
+						break
+					}
+
+					if query.AuthorizerIsOpen(auth) {
+						results[ki] = append(results[ki], string(val))
 						break
 					}
 
